@@ -94,6 +94,13 @@ def _mk_special(key, R, cache, shared):
             b3 = b[None, None] if shared else b[:, None]
             forms = [(None, None), (b3, None), (None, None)]
         else:
+            if shared == "omit":
+                # defaults of integrate_cubic_outer: A = ones, a = 0, i.e. the integrand x (1'x) x'
+                val = u.integrate(key)                               # REAL
+                A3 = xp.ones((1, 1, w.size("D")))
+                E = SP.wick(w, mu, uv["S"], [(None, None), (A3, None), (None, None)], "iuj", "ij", "D")
+                w.equal("value", val, mass[:, None, None] * E)
+                return
             if shared:
                 A, a = w.arr("Am", 1, "D"), w.arr("av", 1)
                 A3, a2 = A[None], a[None]
@@ -151,8 +158,8 @@ def _register():
                                 ("x(A'x + a)x'", "integrate_cubic_outer", "_expectation_cubic_outer")):
         for R in ("R", 1):
             for cache in (False, True):
-                for shared in (False, True):
-                    REG.ob(f"integrate[{key}]/R={R}/cache={int(cache)}/{'shared' if shared else 'per'}",
+                for shared in (False, True) + (("omit",) if key != "xb'xx'" else ()):
+                    REG.ob(f"integrate[{key}]/R={R}/cache={int(cache)}/{'omit' if shared == 'omit' else ('shared' if shared else 'per')}",
                            sorts=["D"] + (["R"] if R != 1 else []),
                            funcs=[f"measure.GaussianMeasure.{method}", f"measure.GaussianMeasure.{helper}",
                                   "measure.GaussianMeasure._expectation_xbxx", "measure.GaussianMeasure._expectation_xxT"],
